@@ -32,6 +32,8 @@ pub mod protocol;
 mod router;
 mod segments;
 mod server;
+#[cfg(rumqtt_verif)]
+pub mod verif;
 
 pub type ConnectionId = usize;
 pub type RouterId = usize;
